@@ -334,6 +334,17 @@ func (propC16) Run(scI interface{}) *Outcome {
 	hubB := &spyHub{per: []*Spies{newSpies()}}
 	B := twig.New()
 	installSpies(B, hubB)
+	switch sc.WorldSeed % 6 {
+	case 4:
+		// "any engine": both sides in debug mode
+		A.SetDebug(true)
+		B.SetDebug(true)
+		o.Probes["both_engines_in_debug_mode"]++
+	case 5:
+		// the target checks timestamps on every call (the compiled loader is timestamp-aware)
+		B.SetAutoReload(true)
+		o.Probes["target_auto_reload"]++
+	}
 	if sc.WarmB {
 		B.RegisterString("warm", "{% for i in [1,2,3] %}{{ i|upper }}{% if i %}x{% endif %}{% endfor %}{{ {'a': 1}|json_encode }}")
 		for i := 0; i < 2; i++ {
